@@ -35,7 +35,10 @@ pub fn growth_case(spec: &FileSpec, acc: &mut Acc) -> Result<u64, String> {
     let model = Model::new(entries);
     let n = model.len();
     let bound = 2 * (spec.cfg.index_levels as u64 + 2);
-    let byte_bound = bound * (8 + crate::files::max_stored_block(&bytes));
+    // a scan fallback reads orders of magnitude more than a few blocks: 4x slack leaves room for
+    // read-ahead while still separating the two
+    let byte_bound = 4 * bound * (8 + crate::files::max_stored_block(&bytes));
+    let block_offsets = crate::files::block_offsets(&bytes);
     let src = CountSrc::new(&bytes);
     let stats = src.stats.clone();
     let fresh = Reader::new(src).map_err(|e| e.to_string())?.into_cursor().map_err(|e| e.to_string())?;
@@ -73,7 +76,7 @@ pub fn growth_case(spec: &FileSpec, acc: &mut Acc) -> Result<u64, String> {
             let mut c = base.clone();
             stats.reset();
             apply(&mut c, op)?;
-            let loads = stats.abs_seeks.get();
+            let loads = stats.block_loads(&block_offsets);
             acc.transitions += 1;
             max_loads = max_loads.max(loads);
             if stats.read_bytes.get() > byte_bound {
@@ -92,7 +95,7 @@ pub fn growth_case(spec: &FileSpec, acc: &mut Acc) -> Result<u64, String> {
         for _ in 0..200.min(n) {
             stats.reset();
             apply(&mut c, &Op::Next)?;
-            let loads = stats.abs_seeks.get();
+            let loads = stats.block_loads(&block_offsets);
             acc.transitions += 1;
             if loads > bound {
                 return Err(format!("n = {n}: next during a walk from {:?} loaded {loads} blocks > {bound}", p));
@@ -168,7 +171,7 @@ pub fn run(tier: Tier) -> i32 {
     rep.acc = acc;
     let closed_all = rep.acc.counters.get("files_not_closed").copied().unwrap_or(0) == 0;
     rep.set("exhaustive", json!(closed_all));
-    rep.set("rule", json!("E1: the C03 closure BFS re-run over a counting source: for EVERY reachable cursor state x EVERY operation of the alphabet the number of block loads (= absolute seeks, each followed by one length-prefixed block read) during that one public call must be <= 2*(index_levels+2), and the bytes read must not exceed what that many blocks of the largest stored size account for; E2 growth family: n = 1..60000 entries x index_levels 0..=3 x two entry shapes, fresh and positioned cursors (sampled positions incl. after relative walks) x {first,last,next,prev,GE/LE/EQ on present and absent probes} plus 200-step walks, each single step within the bound; Reader::new must read only the last 22 bytes. maxima.growth_max_loads_L*_n* show the measured maximum does not grow with n"));
+    rep.set("rule", json!("E1: the C03 closure BFS re-run over a counting source: for EVERY reachable cursor state x EVERY operation of the alphabet the number of block loads (= reads that start at the file offset of a block, i.e. of its length prefix; seeks that read nothing do not count) during that one public call must be <= 2*(index_levels+2); E2 growth family: n = 1..60000 entries x index_levels 0..=3 x two entry shapes, fresh and positioned cursors (sampled positions incl. after relative walks) x {first,last,next,prev,GE/LE/EQ on present and absent probes} plus 200-step walks, each single step within the bound, and bytes read per operation within 4x what that many largest blocks account for (a scan fallback is orders of magnitude above); Reader::new must read only the last 22 bytes. maxima.growth_max_loads_L*_n* show the measured maximum does not grow with n"));
     rep.set("bound", json!({"closure_files": files.iter().map(|f| f.0.clone()).collect::<Vec<_>>(), "growth_sizes": ns}));
     rep.finish()
 }
